@@ -23,6 +23,10 @@ func (identification *IdentificationInitiator) Marshal() ([]byte, error) {
 }
 
 func (identification *IdentificationInitiator) Unmarshal(b []byte) error {
+	if len(b) == 0 {
+		return errors.Errorf("Identification: The payload body is empty")
+	}
+
 	if len(b) > 0 {
 		// bounds checking
 		if len(b) <= 4 {
